@@ -24,15 +24,25 @@ CONSTANTS MaxArgs
 
 Styles == {"return", "arg"}
 Imps   == {"none", "src", "dst", "both"}
+\* ---- the import declarations of the setup file (util/import.go NewImportNames,
+\* parser/parser.go importNames): a package is referred to by the explicit name of
+\* its import declaration or else by the name the package itself declares - which
+\* is usually, but not necessarily, the last element of its path.
+Imports == [ext |-> [path |-> "ext",    alias |-> "",   declared |-> "ext"],
+            v2  |-> [path |-> "api/v2", alias |-> "",   declared |-> "v2"],     \* k8s layout: the version element is the name
+            mdl |-> [path |-> "mdl/v3", alias |-> "",   declared |-> "mdl"],    \* module layout: the version element is not the name
+            xa  |-> [path |-> "extal",  alias |-> "xa", declared |-> "extal"]]  \* explicit name
+Pkgs == DOMAIN Imports
+Qual(k) == IF Imports[k].alias # "" THEN Imports[k].alias ELSE Imports[k].declared
 Cfg == [style: Styles, recv: BOOLEAN, reverse: BOOLEAN, srcPtr: BOOLEAN, dstPtr: BOOLEAN,
-        retErr: BOOLEAN, nargs: 0..MaxArgs, named: BOOLEAN, imp: Imps]
+        retErr: BOOLEAN, nargs: 0..MaxArgs, named: BOOLEAN, imp: Imps, pkg: Pkgs]
 
 VARIABLES cfg, pc, shape
 vars == <<cfg, pc, shape>>
 
 \* ---- operand types as they are written in the generated package
-SrcBase(c) == IF c.imp \in {"src", "both"} THEN "ext.XS" ELSE "SigS"
-DstBase(c) == IF c.imp \in {"dst", "both"} THEN "ext.XS" ELSE "SigD"
+SrcBase(c) == IF c.imp \in {"src", "both"} THEN Qual(c.pkg) \o ".XS" ELSE "SigS"
+DstBase(c) == IF c.imp \in {"dst", "both"} THEN Qual(c.pkg) \o ".XS" ELSE "SigD"
 Star(b, t) == IF b THEN "*" \o t ELSE t
 SrcType(c) == Star(c.srcPtr, SrcBase(c))
 DstType(c) == Star(c.dstPtr, DstBase(c))
@@ -52,7 +62,9 @@ P(n, t) == [name |-> n, type |-> t]
 Args(c) == [i \in 1..c.nargs |-> P(ArgName(c, i), ArgTypes[i])]
 NoRecv == P("", "")
 
-Init == cfg \in Cfg /\ pc = "validate" /\ shape = [reject |-> FALSE, recv |-> NoRecv, params |-> << >>, results |-> << >>]
+\* the import form matters only when an operand is imported; forms other than the
+\* plain one are explored with the parameter names left to the tool
+Init == cfg \in {c \in Cfg : (c.imp = "none" => c.pkg = "ext") /\ (c.pkg # "ext" => ~c.named)} /\ pc = "validate" /\ shape = [reject |-> FALSE, recv |-> NoRecv, params |-> << >>, results |-> << >>]
 
 Reject == shape' = [reject |-> TRUE, recv |-> NoRecv, params |-> << >>, results |-> << >>] /\ pc' = "done"
 
@@ -114,5 +126,11 @@ IllegalRejected == Done => (shape.reject <=> \/ (cfg.reverse /\ (cfg.style = "re
 DistinctNames == Acc => LET all == (IF cfg.recv THEN <<shape.recv.name>> ELSE << >>) \o Names(shape.params) \o Names(shape.results) IN
                           Cardinality({all[i] : i \in DOMAIN all}) = Len(all)
 
-Emit == Done => PrintT(<<"CASE", ToJson([cfg |-> cfg, shape |-> shape])>>)
+\* an imported operand type is written with the qualifier of its import declaration
+QualifierUsed == Acc /\ cfg.imp # "none" =>
+                   \E i \in DOMAIN shape.params \cup DOMAIN shape.results :
+                      LET all == shape.params \o shape.results \o <<shape.recv>> IN
+                      \E j \in DOMAIN all : all[j].type \in {Qual(cfg.pkg) \o ".XS", "*" \o Qual(cfg.pkg) \o ".XS"}
+
+Emit == Done => PrintT(<<"CASE", ToJson([cfg |-> cfg, shape |-> shape, import |-> Imports[cfg.pkg]])>>)
 =============================================================================
